@@ -200,14 +200,21 @@ func DirOf(name string, children []blob.Ref, modTime time.Time) (dir sto.Blob, s
 // Idx bundles an index with its blob source and row store.
 type Idx struct {
 	Index *index.Index
-	Src   *memory.Storage // blob source (also serves public keys)
+	Src   SrcStore // blob source (also serves public keys)
 	KV    sorted.KeyValue
+}
+
+// SrcStore is what the index's blob source must provide.
+type SrcStore interface {
+	blob.Fetcher
+	blobserver.BlobEnumerator
+	blobserver.BlobReceiver
 }
 
 // NewIdx returns an index over kv (a fresh memory KV if nil) whose blob source is src
 // (a fresh memory store if nil).  Keys are fetched from the blob source, so they arrive
 // like any other blob.  If corpus is true KeepInMemory is called.
-func NewIdx(kv sorted.KeyValue, src *memory.Storage, corpus bool) (*Idx, error) {
+func NewIdx(kv sorted.KeyValue, src SrcStore, corpus bool) (*Idx, error) {
 	if kv == nil {
 		kv = sorted.NewMemoryKeyValue()
 	}
